@@ -29,7 +29,7 @@ import (
 // equals the result of the same code run alone; linearizability (porcupine);
 // the Go race detector evaluated on the simulated interleaving (race build).
 
-var concFaults = []string{"preempt", "lock-contended", "curve-first-use", "close-during-write", "rotation-during-handshake", "pct-schedule", "dense-preemption", "transport-write-blocks"}
+var concFaults = []string{"preempt", "lock-contended", "curve-first-use", "close-during-write", "rotation-during-handshake", "pct-schedule", "dense-preemption", "transport-write-blocks", "peer-transport-abort"}
 var concReach = []string{"block-shared", "pkg-sign", "pkg-encrypt", "pkg-hash", "pkg-sm4", "pkg-parse", "pkg-pkcs7-ber", "pkg-verify-chain", "cache-linearizable", "cache-eviction", "pool-verify", "conn-linearizable", "conn-close-raced", "write-after-close-failed", "config-handshakes", "config-rotated", "config-resumed", "config-followup-resumption-owed", "config-rotation-inside-ticket-code", "conn-multi-record-writes", "conn-write-inside-last-flight", "tasks>=8", "tasks>=16", "porcupine-unknown"}
 
 func init() {
@@ -740,6 +740,19 @@ func runConcConn(c *simkit.Choice, r *simkit.Rec) {
 	if big {
 		rdBuf = 20000
 	}
+	// abort: the server's transport goes away (reset / crash) some time after a
+	// damaged record has left for the client, while the client's writers sit in
+	// transport writes that block on a small window: a Read that must answer with
+	// an alert and a Write whose transport write fails meet. Everything must wind
+	// down with errors; nothing may hang.
+	abortMode := !big && c.Bool(1, 6, simkit.LScen)
+	abortAfter := c.Range(0, 400, simkit.LScen)
+	if abortMode {
+		closer, halfCloser, corrupt, implicitHS = false, false, true, false
+		if nw[0] < 1 {
+			nw[0] = 1
+		}
+	}
 	type wplan struct{ bufs []string }
 	var wp [2][]wplan
 	id := 0
@@ -749,6 +762,9 @@ func runConcConn(c *simkit.Choice, r *simkit.Rec) {
 			n := c.Range(1, 3, simkit.LOp)
 			for k := 0; k < n; k++ {
 				ln := []int{1, 2, 5, 40, 300}[c.Choose(5, simkit.LOp)]
+				if abortMode && side == 0 {
+					ln = []int{300, 2000, 6000}[c.Choose(3, simkit.LOp)]
+				}
 				if big && side == 0 {
 					ln = []int{16385, 17000, 33000, 40000, 300, 16384}[c.Choose(6, simkit.LOp)]
 				}
@@ -792,11 +808,13 @@ func runConcConn(c *simkit.Choice, r *simkit.Rec) {
 	var lateFired atomic.Bool
 	var lateTask atomic.Value // *simkit.Task
 	lateGo := &simkit.Flag{Name: "late-writer-go"}
-	if c.Bool(1, 3, simkit.LScen) {
+	if c.Bool(1, 3, simkit.LScen) || abortMode {
 		netC.Window = c.Range(8, 300, simkit.LScen)
 		netS.Window = c.Range(8, 300, simkit.LScen)
 		r.Fault(idx(concFaults, "transport-write-blocks"))
 	}
+	flipped := &simkit.Flag{Name: "damaged-record-left"}
+	var aborted atomic.Bool
 	a, b := s.NewConnPair("cli", "srv", netC, netS)
 	if lateWriter {
 		hasCCS := func(buf []byte) bool {
@@ -872,6 +890,9 @@ func runConcConn(c *simkit.Choice, r *simkit.Rec) {
 		side := side
 		conn := conns[side]
 		s.Spawn([]string{"cli", "srv"}[side], side, func() {
+			if side == 1 {
+				defer flipped.Set() // (if the damaged byte never left, the abort task is released at the end)
+			}
 			if !implicitHS {
 				hsErr[side] = conn.Handshake()
 				if hsErr[side] != nil {
@@ -882,6 +903,17 @@ func runConcConn(c *simkit.Choice, r *simkit.Rec) {
 				wp := b.WrPipe()
 				wp.FlipMask = 0x10
 				wp.FlipAt = wp.BytesW + int64(corruptOff)
+				wp.OnFlip = flipped.Set
+				if abortMode {
+					s.Spawn("srv-abort", 1, func() {
+						s.WaitFlag(flipped)
+						for k := 0; k < abortAfter; k++ {
+							simkit.Yield(-28)
+						}
+						b.Close() // the transport disappears under the TLS connection
+						aborted.Store(true)
+					})
+				}
 			}
 			if halfCloser && side == 0 {
 				s.Spawn("cli-halfcloser", 0, func() {
@@ -948,7 +980,9 @@ func runConcConn(c *simkit.Choice, r *simkit.Rec) {
 							boosted = false
 						}
 						lateGo.Set()
-						a.LiftWindows() // the slow-peer phase ends with the first completed application call
+						if !abortMode {
+							a.LiftWindows() // the slow-peer phase ends with the first completed application call
+						}
 						h.out = connOut{err: err != nil}
 						h.ret = int64(s.Seq())
 						if err == nil && n != len(buf) {
@@ -975,7 +1009,9 @@ func runConcConn(c *simkit.Choice, r *simkit.Rec) {
 						h.call = int64(s.Seq())
 						n, err := conn.Read(buf)
 						lateGo.Set() // (whatever became of the handshake, nobody waits for it any longer)
-						a.LiftWindows()
+						if !abortMode {
+							a.LiftWindows()
+						}
 						h.ret = int64(s.Seq())
 						switch {
 						case n > 0:
@@ -1115,7 +1151,7 @@ func runConcConn(c *simkit.Choice, r *simkit.Rec) {
 		// everything must wind down
 	}
 	if s.Reason == simkit.StopDeadlock {
-		if corrupt && b.WrPipe().Flipped {
+		if corrupt && b.WrPipe().Flipped && !abortMode {
 			// a flipped length field makes the reader wait for bytes that never come while
 			// nobody closes the transport in this program: waiting is legitimate
 			r.Outcome = "waiting-after-corruption"
@@ -1127,7 +1163,7 @@ func runConcConn(c *simkit.Choice, r *simkit.Rec) {
 	// without a Close/CloseWrite racing the traffic and without corruption in
 	// transit nothing can legitimately fail: every Write succeeds, every Read
 	// returns data or a clean end of stream
-	if !closer && !halfCloser && !(corrupt && b.WrPipe().Flipped) && hsErr[0] == nil && hsErr[1] == nil {
+	if !closer && !halfCloser && !aborted.Load() && !(corrupt && b.WrPipe().Flipped) && hsErr[0] == nil && hsErr[1] == nil {
 		for d := 0; d < 2; d++ {
 			for i := 0; i < nhist[d]; i++ {
 				h := hist[d][i]
@@ -1144,6 +1180,9 @@ func runConcConn(c *simkit.Choice, r *simkit.Rec) {
 	}
 	if lateFired.Load() {
 		r.Reach(idx(concReach, "conn-write-inside-last-flight"))
+	}
+	if aborted.Load() {
+		r.Fault(idx(concFaults, "peer-transport-abort"))
 	}
 	model := pipeModel()
 	for d := 0; d < 2; d++ {
@@ -1314,6 +1353,7 @@ func runConcConfig(c *simkit.Choice, r *simkit.Rec) {
 	// written and read by different tasks: atomics (the scheduler's baton is invisible to the race detector)
 	hsStart := make([]atomic.Int64, nconn)
 	var rotEnd [3]atomic.Int64
+	var insideTicket atomic.Bool
 	var waitingFor atomic.Int64 // targeted rotation the rotator is waiting to perform (-1 = none)
 	waitingFor.Store(-1)
 	var inTicket atomic.Int64 // (declared before any task exists: later declarations would race with already spawned goroutines)
@@ -1350,15 +1390,25 @@ func runConcConfig(c *simkit.Choice, r *simkit.Rec) {
 	// some of the three rotations happen before any connection starts; the others
 	// run concurrently, either after a drawn number of yields or timed to the
 	// moment some task stands inside the ticket code (statement-instrumented builds)
-	preRot := c.Choose(3, simkit.LFault)
+	nRot := 1 + c.Choose(3, simkit.LFault) // rotations in all: the list ends as [nRot, nRot-1]
+	preRot := c.Choose(nRot, simkit.LFault)
+	owedIdx := nRot - 2 // a handshake that began after this rotation had completed can only have sealed under a key of the final list
+	if owedIdx < 0 {
+		owedIdx = 0
+	}
 	targeted := c.Bool(1, 2, simkit.LFault)
 	// targeted: rotation k happens at the moment the hitTarget[k]-th statement of the
 	// ticket code (counted over all tasks since the previous rotation) is reached:
 	// the rotator is woken and boosted there, i.e. the whole SetSessionTicketKeys
 	// call falls between two statements of a task that is sealing or opening a ticket
+	// (the ticket code, or the Config's own lazily initialised state: serverInit, key list accessors)
+	targetFile := []string{"gmtls/ticket.go", "gmtls/common.go"}[c.Choose(2, simkit.LFault)]
 	var hitTarget [3]int64
 	for k := range hitTarget {
 		hitTarget[k] = int64(c.Range(1, 60, simkit.LFault))
+		if targetFile == "gmtls/common.go" {
+			hitTarget[k] = int64(c.Range(1, 30, simkit.LFault))
+		}
 	}
 	var windows [3]*simkit.Flag
 	for k := range windows {
@@ -1375,8 +1425,11 @@ func runConcConfig(c *simkit.Choice, r *simkit.Rec) {
 	}
 	if targeted && rotate {
 		s.OnSite = func(site int) {
-			if simkit.SiteFile(site) != "gmtls/ticket.go" {
+			if simkit.SiteFile(site) != targetFile {
 				return
+			}
+			if t := s.CurTask(); targetFile == "gmtls/common.go" && (t == nil || t.Node%2 == 0 || t.Node >= 100) {
+				return // the Config's own state: only statements reached by server-side tasks count
 			}
 			k := waitingFor.Load()
 			if k < 0 || k > 2 {
@@ -1459,14 +1512,14 @@ func runConcConfig(c *simkit.Choice, r *simkit.Rec) {
 		flags = append(flags, rf)
 		rotTask.Store(s.Spawn("rotator", 100, func() {
 			defer rf.Set()
-			for k := preRot; k < 3; k++ {
+			for k := preRot; k < nRot; k++ {
 				if targeted && len(simkit.SiteTable) > 0 {
 					inTicket.Store(0)
 					waitingFor.Store(int64(k))
 					s.WaitFlag(windows[k]) // set by the OnSite hook, or by the last connection task to finish
 					rotateTo(k)
 					s.Unboost()
-					r.Reach(idx(concReach, "config-rotation-inside-ticket-code"))
+					insideTicket.Store(true)
 					continue
 				}
 				for y := 0; y < rotGap[k]; y++ {
@@ -1493,7 +1546,7 @@ func runConcConfig(c *simkit.Choice, r *simkit.Rec) {
 			}
 			for i := 0; i < nconn; i++ {
 				i := i
-				owed[i] = !rotate || hsStart[i].Load() > rotEnd[1].Load()
+				owed[i] = !rotate || hsStart[i].Load() > rotEnd[owedIdx].Load()
 				a, b := s.NewConnPair(fmt.Sprintf("fc%d", i), fmt.Sprintf("fs%d", i), simkit.NetCfg{}, simkit.NetCfg{})
 				cf, sf := &simkit.Flag{Name: "fcdone"}, &simkit.Flag{Name: "fsdone"}
 				s.Spawn(fmt.Sprintf("fcli%d", i), 2*i, func() {
@@ -1509,7 +1562,17 @@ func runConcConfig(c *simkit.Choice, r *simkit.Rec) {
 				})
 				s.Spawn(fmt.Sprintf("fsrv%d", i), 2*i+1, func() {
 					defer sf.Set()
-					conn := gmtls.Server(b, scfg)
+					// every second follow-up goes to another server process that was started
+					// with the final key list: what SetSessionTicketKeys installed last must be
+					// what tickets are sealed under
+					fcfg := scfg
+					if rotate && i%2 == 1 {
+						fcfg = &gmtls.Config{Rand: simkit.NewStream(ent + 7), Time: simTime(s, 0), GMSupport: scfg.GMSupport, Certificates: scfg.Certificates, CipherSuites: scfg.CipherSuites}
+						var k1, k2 [32]byte
+						k1[0], k2[0] = byte(nRot), byte(nRot-1)
+						fcfg.SetSessionTicketKeys([][32]byte{k1, k2})
+					}
+					conn := gmtls.Server(b, fcfg)
 					if follow[i].serr = conn.Handshake(); follow[i].serr != nil {
 						b.Close()
 						return
@@ -1568,13 +1631,16 @@ func runConcConfig(c *simkit.Choice, r *simkit.Rec) {
 			if owed[i] {
 				r.Reach(idx(concReach, "config-followup-resumption-owed"))
 				if !follow[i].resumed {
-					r.Violate("result-differs", "gmtls.Config/ticket", fmt.Sprintf("connection %d obtained its ticket in a handshake that began at step %d, after the second key rotation had completed (step %d; rotate=%v); under every order of the concurrent calls that ticket was sealed under a key the final list still holds, yet the follow-up connection did not resume", i, hsStart[i].Load(), rotEnd[1].Load(), rotate))
+					r.Violate("result-differs", "gmtls.Config/ticket", fmt.Sprintf("connection %d obtained its ticket in a handshake that began at step %d, after rotation %d of %d had completed (step %d; rotate=%v); under every order of the concurrent calls that ticket was sealed under a key of the final list [%d, %d], yet the follow-up connection (second server process with that list: %v) did not resume", i, hsStart[i].Load(), owedIdx+1, nRot, rotEnd[owedIdx].Load(), rotate, nRot, nRot-1, rotate && i%2 == 1))
 					return
 				}
 			}
 		}
 	}
 	r.Reach(idx(concReach, "config-handshakes"))
+	if insideTicket.Load() {
+		r.Reach(idx(concReach, "config-rotation-inside-ticket-code"))
+	}
 	if rotate {
 		r.Reach(idx(concReach, "config-rotated"))
 	}
